@@ -9,6 +9,11 @@ type Rand struct {
 	// Large lets genVal draw text/bytea values beyond 4 KiB (row values of the
 	// checks that ask for it; never message parameters)
 	Large bool
+	// NulStr lets genVal put NUL bytes into Go strings written to text-like
+	// columns (only where the oracle is the wire grammar: the properties do not
+	// say whether such a row is delivered or refused, only that what is sent is
+	// well formed)
+	NulStr bool
 }
 
 // NewRand seeds a generator.
